@@ -526,13 +526,14 @@ pub fn run(args: &Args) {
 
 /// free-running concurrent saves (no scheduler); also used by the ThreadSanitizer and Miri builds
 pub fn stress_rounds(rounds: u64, seed: u64, o: &mut Outcome) -> u64 {
-    stress_rounds_with(rounds, seed, o, 12, false)
+    stress_rounds_with(rounds, seed, o, 12, false, MODES.len())
 }
-pub fn stress_rounds_with(rounds: u64, seed: u64, o: &mut Outcome, maxk: u32, light_only: bool) -> u64 {
+/// `nmodes` < MODES.len() leaves out the lazily opened workbooks (reading a package is far too slow under Miri)
+pub fn stress_rounds_with(rounds: u64, seed: u64, o: &mut Outcome, maxk: u32, light_only: bool, nmodes: usize) -> u64 {
     let mut rng = Rng::new(seed, 1616);
     for j in 0..rounds {
         let k = rng.range(1, maxk) as usize;
-        let mode = *rng.pick(&["equal", "disjoint", "overlap", "shared-reference", "lazy-shared", "lazy-clones"]);
+        let mode = *rng.pick(&MODES[..nmodes]);
         let nsavers = rng.range(2, 3) as usize;
         let light = light_only || rng.chance(1, 2);
         let books = make_books(k, mode, mode == "shared-reference", nsavers);
@@ -564,7 +565,7 @@ pub fn stress_rounds_with(rounds: u64, seed: u64, o: &mut Outcome, maxk: u32, li
 /// entry point for sanitizer builds: free-running stress only, exit status 1 on any divergence
 pub fn stress_cmd(args: &Args) {
     let mut o = Outcome::default();
-    let n = stress_rounds_with(args.get_u64("rounds", 200), args.seed, &mut o, args.get_u64("maxk", 12) as u32, args.get_u64("light-only", 0) == 1);
+    let n = stress_rounds_with(args.get_u64("rounds", 200), args.seed, &mut o, args.get_u64("maxk", 12) as u32, args.get_u64("light-only", 0) == 1, args.get_u64("modes", MODES.len() as u64) as usize);
     println!("c16stress: {} rounds, {} divergences", n, o.divs.len());
     for d in o.divs.iter().take(5) {
         println!("DIVERGENCE {} {}", d.sig, d.detail);
